@@ -149,19 +149,24 @@ def mkDecomp (tab : List (Bool × Bytes × Option Bytes)) : Format.Decomp := fun
   | some e => e.2.2
   | none => none
 
-/-- the READSEQ call schedule of the harness, on the model -/
+/-- the READSEQ call schedule of the harness, on the model (`ce` = result of the one
+`zck_clear_error` call made after the first error, -1 if none) -/
 def runReadSeq (H : Format.HashFn) (D : Format.Decomp) (f : Bytes) (sizes : Array Nat) :
-    Nat → Reader.Ctx → Nat → Nat → Array Int → Bytes → (Array Int × Bytes × Reader.Ctx)
-  | 0, c, _, _, rets, out => (rets, out, c)
-  | fuel + 1, c, calls, afterErr, rets, out =>
+    Nat → Reader.Ctx → Nat → Nat → Int → Array Int → Bytes → (Array Int × Bytes × Reader.Ctx × Int)
+  | 0, c, _, _, ce, rets, out => (rets, out, c, ce)
+  | fuel + 1, c, calls, afterErr, ce, rets, out =>
     let bs := sizes[if calls < sizes.size then calls else sizes.size - 1]!
     let (r, c) := Reader.compRead H D f c bs
     let rets := rets.push r.ret
     let out := if r.ret > 0 then out ++ r.bytes else out
+    let (ce, c) := if r.ret < 0 ∧ ce < 0 then
+        let (ok, c') := Reader.clearError c
+        ((if ok then 1 else 0 : Int), c')
+      else (ce, c)
     if r.ret < 0 ∨ afterErr > 0 then
-      if afterErr + 1 > 2 then (rets, out, c) else runReadSeq H D f sizes fuel c (calls + 1) (afterErr + 1) rets out
-    else if r.ret == 0 ∧ bs > 0 then (rets, out, c)
-    else runReadSeq H D f sizes fuel c (calls + 1) 0 rets out
+      if afterErr + 1 > 2 then (rets, out, c, ce) else runReadSeq H D f sizes fuel c (calls + 1) (afterErr + 1) ce rets out
+    else if r.ret == 0 ∧ bs > 0 then (rets, out, c, ce)
+    else runReadSeq H D f sizes fuel c (calls + 1) 0 ce rets out
 
 def parseNatList (s : String) : Option (List Nat) := (s.splitOn ",").mapM (·.toNat?)
 def parseIntList (s : String) : Option (List Int) := (s.splitOn ",").mapM (·.toInt?)
@@ -201,7 +206,7 @@ def runScan (H : Format.HashFn) (D : Format.Decomp) (f : Bytes) (ops : List Char
           | none => ok := false
         | _ => if impl.isSome then ok := false
       else if o == 'r' then
-        let (rets, out, c') := runReadSeq H D f #[4096] 200000 c 0 0 #[] []
+        let (rets, out, c', _) := runReadSeq H D f #[4096] 200000 c 0 0 0 #[] []
         c := c'
         -- the harness loops `while((r = zck_read(...)) > 0)`: it stops at the first r <= 0
         let lastRet := (rets.toList.find? (· ≤ 0)).getD 0
@@ -263,9 +268,9 @@ def handleIO (op : String) (args : List String) (impl : Option (List String)) : 
     | some sz =>
       match Header.openFile Sha.zckHash f with
       | .ok h =>
-        let (rets, out, c) := runReadSeq Sha.zckHash D f sz.toArray 100000 (Reader.openCtx h) 0 0 #[] []
+        let (rets, out, c, ce) := runReadSeq Sha.zckHash D f sz.toArray 100000 (Reader.openCtx h) 0 0 (-1) #[] []
         let cl := Reader.close Sha.zckHash c
-        let res := s!"OK rets={",".intercalate (rets.toList.map toString)} n={out.length} out={PredRead.showBytes out} close={if cl then 1 else 0}"
+        let res := s!"OK rets={",".intercalate (rets.toList.map toString)} ce={ce} n={out.length} out={PredRead.showBytes out} close={if cl then 1 else 0}"
         let pv := impl.map fun i =>
           match i with
           | "OK" :: rest =>
@@ -312,6 +317,40 @@ def handleIO (op : String) (args : List String) (impl : Option (List String)) : 
     let f ← readFile path
     let tab ← loadZtab ztab
     return runScan Sha.zckHash (mkDecomp tab) f ops.toList impl
+  | "WRITE", [_, cfg, ops] =>
+    -- configuration and operations as the harness reads them
+    let kvs := cfg.splitOn ","
+    let get := fun (k : String) => kv kvs k
+    let natOf := fun (k : String) => ((get k).bind (·.toNat?)).getD 0
+    let wcfg : Writer.Cfg := { manual := natOf "manual" == 1, chunkMin := natOf "min", chunkMax := natOf "max" }
+    let dictLen := match get "dict" with
+      | some d => if d == "-" then 0 else d.length / 2
+      | none => 0
+    let mops := (ops.splitOn "|").mapM fun t =>
+      if t == "e" then some Writer.Op.endChunk
+      else if t.startsWith "w" then (parseHex (if t.length == 1 then "-" else (t.drop 1).toString)).map Writer.Op.write
+      else none
+    match mops with
+    | none => return ("BADOP", none)
+    | some mops =>
+      let content := Writer.written mops
+      let out := match Writer.closeChunks wcfg mops with
+        | none => "HANG"
+        | some chunks => s!"OK close=1 lens={",".intercalate ((dictLen :: chunks.map (·.length)).map toString)}"
+      let pv := impl.map fun i =>
+        match i with
+        | "OK" :: rest =>
+          if kv rest "close" != some "1" then true else
+          -- C01: a successful close yields a file that validates and reads back exactly what was written
+          let rbOk := match (kv rest "rb").map (·.splitOn ":") with
+            | some (r :: n :: bs) => r == "0" && n.toNat? == some content.length && ":".intercalate bs == PredRead.showBytes content
+            | _ => false
+          let lens := ((kv rest "cl").getD "").splitOn ";" |>.filterMap fun e => ((e.splitOn ":").getLast?).bind (·.toNat?)
+          kv rest "valid" == some "1" && rbOk && kv rest "rclose" == some "1" &&
+            (mops.any (· == Writer.Op.endChunk) || PredWrite.c16_bounds_ok wcfg (lens.drop 1))
+        | ["HANG"] => false
+        | _ => true
+      return (out, pv)
   | "META", [path] =>
     let f ← readFile path
     let m := Header.openFile Sha.zckHash f
